@@ -23,6 +23,7 @@ import Verif.Drv.GfmRender
 import Verif.Drv.TokenRules
 import Verif.Drv.ScanRules
 import Verif.Drv.InlineLoop
+import Verif.Drv.RegenLeaf
 
 /-- model name → request handler (one request line in, one answer line out). -/
 def models : List (String × (String → String)) :=
@@ -62,7 +63,8 @@ def models : List (String × (String → String)) :=
    ("gfm", Verif.Drv.GfmRender.step),
    ("tokenrules", Verif.Drv.TokenRules.step),
    ("scanrules", Verif.Drv.ScanRules.step),
-   ("inlineloop", Verif.Drv.InlineLoop.step)]
+   ("inlineloop", Verif.Drv.InlineLoop.step),
+   ("regenleaf", Verif.Drv.RegenLeaf.step)]
 
 partial def loop (h : IO.FS.Stream) (out : IO.FS.Stream) (f : String → String) : IO Unit := do
   let line ← h.getLine
